@@ -538,6 +538,15 @@ func (g *gen) genSpec(k int) *ModSpec {
 			return Op{K: kk, A: int64(ti), B: int64(g.n(0, tsize(ti)+0, label+"-slot")), C: int64(g.n(0, nF, label+"-func"))}, true
 		}
 	}
+	var intGlobals, ownMutInt []int
+	for i, t := range v.gt {
+		if t.vt == wasmenc.I32 || t.vt == wasmenc.I64 {
+			intGlobals = append(intGlobals, i)
+			if t.mut && i >= v.nIG {
+				ownMutInt = append(ownMutInt, i)
+			}
+		}
+	}
 	fsig := append([]int{}, v.fsig[:v.nIF]...) // signatures of the functions callable so far
 	resultClass := func(sg int) int {          // signatures with equal result types may tail-call each other
 		if sg == 1 {
@@ -570,6 +579,13 @@ func (g *gen) genSpec(k int) *ModSpec {
 			f.Tail = &Op{K: "ricall", A: int64(ti), B: int64(g.n(0, tsize(ti), "tail-slot")), C: 0}
 		case len(tails) > 0 && g.pct(25, "tail-direct"):
 			f.Tail = &Op{K: "rcall", A: int64(pick(g, tails, "tail-callee"))}
+		}
+		if f.Tail == nil && len(intGlobals) > 0 && g.pct(40, "result-shows-global") {
+			// prefer the module's own mutable globals: what a failed instance did to them stays visible
+			f.AddG = pick(g, intGlobals, "shown-global") + 1
+			if len(ownMutInt) > 0 && g.pct(70, "shown-global-own") {
+				f.AddG = pick(g, ownMutInt, "shown-own-global") + 1
+			}
 		}
 		s.Funcs = append(s.Funcs, f)
 		fsig = append(fsig, f.Sig)
@@ -696,6 +712,34 @@ func (g *gen) genSpec(k int) *ModSpec {
 			}
 		}
 		s.Start = st
+	}
+	// What a start function did to the module's OWN globals before it trapped must stay visible
+	// through the functions the module left in an imported table: start writes own global G, an
+	// own function shows G in its result, an element segment puts it into an imported table.
+	if s.Start != nil && len(ownMutInt) > 0 && len(s.Funcs) > 0 && g.pct(60, "start-writes-shown-global") {
+		gi := pick(g, ownMutInt, "start-own-global")
+		s.Start.Ops = append([]Op{{K: "ginc", A: int64(gi)}}, s.Start.Ops...)
+		var plain []int
+		for i, f := range s.Funcs {
+			if f.Tail == nil {
+				plain = append(plain, i)
+			}
+		}
+		if len(plain) > 0 {
+			fi := pick(g, plain, "shown-global-function")
+			s.Funcs[fi].AddG = gi + 1
+			var imported []int
+			for _, ti := range ftables {
+				if ti < v.nIT && tsize(ti) > 0 {
+					imported = append(imported, ti)
+				}
+			}
+			if len(imported) > 0 && len(s.Elems) < 3 {
+				ti := pick(g, imported, "shown-global-table")
+				s.Elems = append(s.Elems, ElemSpec{Table: ti, Off: Expr{K: "i32", V: uint64(g.n(0, tsize(ti)-1, "shown-global-slot"))},
+					Items: []Expr{{K: "func", V: uint64(v.nIF + fi)}}})
+			}
+		}
 	}
 
 	// ---- excluded classes (open findings; see check.json and the dedicated tests) ----
